@@ -1410,7 +1410,7 @@ pub fn run_case(case: &Case, ctx: &mut Ctx, tail_blocks: u32) -> CaseResult {
 	if ctx.replay {
 		// keep the history printable when LDK panics
 		let res = std::panic::catch_unwind(std::panic::AssertUnwindSafe(|| run_inner(&mut r, ctx, tail_blocks)));
-		if !matches!(res, Ok(Ok(()))) {
+		if !matches!(res, Ok(Ok(()))) || std::env::var("C07_DUMP").is_ok() {
 			println!("==== history ====\n{}", crate::oracle_commit::dump_history(&r.sim));
 		}
 		return match res {
